@@ -68,6 +68,8 @@ pub struct MsgFields {
     pub sender: Address,
     pub recipient: Address,
     pub amount: u64,
+    /// non-empty for data-carrying (retryable) messages
+    pub data: Vec<u8>,
 }
 
 /// The canonical chain as the harness models it (the "database" the pool reads).
@@ -126,7 +128,7 @@ impl TxPoolPersistentStorage for ChainView {
                     recipient: m.recipient,
                     nonce: *nonce,
                     amount: m.amount,
-                    data: vec![],
+                    data: m.data.clone(),
                     da_height: Default::default(),
                 }
                 .into()
